@@ -427,7 +427,44 @@ def r9(F, rep, rid="C15-R9"):
         raise AnalysisBroken("%s: only %d value-to-bin conversions found in the grid classes" % (rid, n))
 
 
+def count_lookup(F, rep, rid="C15-R12"):
+    rep.rule(rid, "what is divided out on output is multiplied back on input: in a grid class that stores sums and writes "
+                  "averages, value_output() and value_input() look up the sample count of the bin with the same call on the "
+                  "count grid (same arguments, canonical text) -- a different index on one side rescales the stored sums at "
+                  "every load")
+    n = 0
+    by = {}
+    for f in F.funcs.values():
+        if "/src/" not in f.file or f.body is None or not f.cls or f.name not in ("value_output", "value_input"):
+            continue
+        by.setdefault(f.cls, {}).setdefault(f.name, []).append(f)
+
+    def lookups(f):
+        out = {}
+        for c in X.calls(f):
+            if c["k"] == "CXXMemberCallExpr" and X.callee_name(c) == "value" and X.receiver(c) is not None:
+                rk = X.re_strip(X.key(X.receiver(c), f))
+                if rk.startswith("op->(this.") or rk.startswith("this."):
+                    out.setdefault("%s.value(%s)" % (rk, ", ".join(X.re_strip(X.key(a, f)) for a in X.call_args(c) if a["k"] != "CXXDefaultArgExpr")), c)
+        return out
+    for cls, d in sorted(by.items()):
+        for fo in d.get("value_output", []):
+            lo = lookups(fo)
+            if not lo:
+                continue
+            for fi in d.get("value_input", []):
+                li = lookups(fi)
+                n += 1
+                extra = sorted(set(li) - set(lo))
+                rep.add(rid, "%s|count-lookup" % cls, fi.loc(li[extra[0]]) if extra else fi.loc(), "%s: value_input() multiplies by %s; value_output() divides by %s" % (
+                    cls, sorted(li), sorted(lo)), not extra,
+                    detail="the sums restored from a state or file are scaled by another bin's (or component's) count", func=fi.q)
+    if n < 2:
+        raise AnalysisBroken("%s: only %d grid classes with count-normalised output and input found" % (rid, n))
+
+
 def run(F, rep, tier):
+    count_lookup(F, rep)
     from .rules_c19 import named_output
     named_output(F, rep, "C15-R11")
     r8(F, rep)
